@@ -13,6 +13,7 @@ cpio 16/32-bit stores) the full statement is kept as a `def … : Prop`, its neg
 with a concrete witness and a `_partial` theorem names what is excluded.
 -/
 import LA.Lemmas.NumFmt
+import LA.Lemmas.NumFmt256
 import LA.Lemmas.UstarSpec
 import LA.Lemmas.Stream
 namespace LA.C10
@@ -119,6 +120,39 @@ theorem ustar_number_nonstrict_never_overflows (v : Int) (s m : Nat) (hs : s ≤
   · simp only [if_neg hv]
 
 example : (ustarFormatNumber 2097152 6 8 false).1 = false ∧ (ustarFormatNumber (-5) 6 8 false).1 = false := by decide
+
+/-! ### base-256 fields (`format_256`, used by gnutar and by pax for what octal cannot hold) -/
+
+/-- Full-strength statement: whatever `format_number` stores base-256 in an 8-byte field
+(uid, gid, mode, rdev of gnutar / pax) is read back by `tar_atol`. -/
+def tar_atol_format256_8_full : Prop := ∀ v : Int, isI64 v → tarAtol (format256 v 8) = v
+
+/-- Witness: 2^62 comes back as -2^62 (the reader takes the sign from bit 62 of an 8-byte field,
+the writer never reports an overflow: `ustar_number_nonstrict_never_overflows`). This is the
+root of the recorded findings C10-gnutar-silent / C10-pax-silent for ids ≥ 2^62. -/
+theorem tar_atol_format256_8_false : ¬ tar_atol_format256_8_full := by
+  intro h
+  have := h 4611686018427387904 (by unfold isI64 I64_MIN I64_MAX; omega)
+  rw [format256_8_not_exact] at this
+  omega
+
+/-- Inside ±2^62 the 8-byte base-256 field is exact, negatives included. -/
+theorem tar_atol_format256_8_partial (v : Int) (h1 : -4611686018427387904 ≤ v) (h2 : v < 4611686018427387904) :
+    tarAtol (format256 v 8) = v := tarAtol_format256_8 v h1 h2
+
+example : tarAtol (format256 (-5) 8) = -5 := by decide
+
+/-- The 12-byte field (size) holds every `int64_t`, negatives included. -/
+theorem tar_atol_format256_12_roundtrip (v : Int) (hv : isI64 v) : tarAtol (format256 v 12) = v :=
+  tarAtol_format256_12 v hv
+
+example : isI64 (-9223372036854775808) ∧ tarAtol (format256 (-9223372036854775808) 12) = -9223372036854775808 := by decide
+
+/-- The pax writer's mtime field: `USTAR_mtime_max_size` is 11 but the reader parses 12 bytes, so a
+base-256 mtime (any negative time) is read with the terminating blank as its low byte:
+-1 → -224 (recorded finding C10-pax-silent). -/
+theorem pax_mtime_11_of_12_bytes_witness : tarAtol (format256 (-1) 11 ++ [32]) = -224 :=
+  format256_11_in_12_not_exact
 
 /-! ### gnutar `format_octal` — the full statement is false of the unchanged code -/
 
